@@ -37,6 +37,8 @@ program drv_f
 #ifndef SIMC
   type(item) :: h(0:NH-1)
   type(box) :: bx(0:NH-1)
+  type(holder_int) :: hi(0:NH-1)
+  type(holder_double) :: hd(0:NH-1)
 #else
   type(pair) :: pr
   type(pair), pointer :: prp
@@ -50,7 +52,7 @@ program drv_f
   integer :: ios, k, a, b, c, bar, u
   integer(C_INT) :: r
   character(len=:), allocatable :: s
-  integer(C_INT), allocatable :: iv(:)
+  integer(C_INT), allocatable :: iv(:), wv(:)
   real(C_DOUBLE), allocatable :: dv(:)
 
   call get_command_argument(1, fname)
@@ -183,6 +185,36 @@ contains
 #ifndef SIMC
     case ("assign")
        h(b) = h(a); call res_none()
+#endif
+#ifndef SIMC
+    case ("hi_new")
+       call sim_phase(1); hi(a) = holder_int(int(b, C_INT)); call sim_phase(0); call res_none()
+    case ("hd_new")
+       call sim_phase(1); hd(a) = holder_double(int(b, C_INT)); call sim_phase(0); call res_none()
+    case ("hi_get")
+       call sim_phase(1); r = hi(a)%get(); call sim_phase(0); call res_int(int(r))
+    case ("hd_get")
+       call sim_phase(1); r = int(hd(a)%get(), C_INT); call sim_phase(0); call res_int(int(r))
+    case ("hi_put")
+       call sim_phase(1); call hi(a)%put(int(b, C_INT)); call sim_phase(0); call res_none()
+    case ("hd_put")
+       call sim_phase(1); call hd(a)%put(real(b, C_DOUBLE)); call sim_phase(0); call res_none()
+    case ("hi_delete")
+       call sim_phase(1); call hi(a)%delete(); call sim_phase(0); call res_none()
+    case ("hd_delete")
+       call sim_phase(1); call hd(a)%delete(); call sim_phase(0); call res_none()
+    case ("arr_weights")
+       allocate(iv(a)); allocate(wv(b))
+       do i = 1, a
+          iv(i) = i
+       end do
+       do i = 1, b
+          wv(i) = 1 + i
+       end do
+       call sim_phase(1); call arr_weights(iv, wv); call sim_phase(0)
+       sm = 0
+       if (a > 0) sm = sum(iv)
+       call res_arr(a, sm); deallocate(iv); deallocate(wv)
 #endif
 #ifndef SIMC
     case ("make_box")
